@@ -104,6 +104,20 @@ fn run<K: BufKind>(i: &Input, obs: &mut Obs) -> Result<(), Fail> {
     let got = continue_with(&mut used, &i.s2);
     let mut fresh = Decoder::<K::B>::new();
     let want = continue_with(&mut fresh, &i.s2);
+    // a decoder constructed over an existing buffer that still holds bytes is a new decoder as well
+    let mut recycled = Decoder::<K::B>::from_buf(drive::prefilled(&drive::junk_for(&s1)));
+    let want2 = continue_with(&mut recycled, &i.s2);
+    ensure!(
+        want2 == want,
+        "from_buf-differs-from-new",
+        "{who}: Decoder::from_buf(buffer holding {}) answers s2 = {} with {} finalize={:?}; Decoder::new() answers {} finalize={:?}",
+        hex_short(&drive::junk_for(&s1), 16),
+        hex_short(&i.s2, 80),
+        drive::show_pos(&want2.0),
+        want2.1,
+        drive::show_pos(&want.0),
+        want.1
+    );
     ensure!(
         got == want,
         format!("state-leaks-across-boundary:{}", boundary_kind),
